@@ -573,6 +573,25 @@ func (d *brokerDrv) Step(line string) string {
 			// socket is closed at once, so the broker finds the DISCONNECT buffered behind other packets when it sees EOF.
 			// A DISCONNECT the client has sent must still be honoured (will suppression, session expiry update).
 			var buf bytes.Buffer
+			if m["prek"] == "ping" {
+				// k PINGREQs and the DISCONNECT in one write; the client keeps reading until the broker closes: answers that
+				// are still queued when the connection ends may or may not reach the peer — those that do must be counted
+				for i := 0; i < k; i++ {
+					buf.Write([]byte{0xc0, 0x00})
+					c.NoteSent(packets.PINGREQ, 2, 0)
+				}
+				n0 := buf.Len()
+				if err := packets.NewWriter(&buf).WriteAndFlush(dp); err != nil {
+					return "bad-op"
+				}
+				c.NoteSent(packets.DISCONNECT, buf.Len()-n0, 0)
+				if err := c.WriteRaw(buf.Bytes()); err != nil {
+					return "send-failed " + d.collect("")
+				}
+				r := d.collect("")
+				c.Close()
+				return r + " " + d.collect("")
+			}
 			for i := 0; i < k; i++ {
 				pp := &packets.Publish{Version: c.Version, TopicName: []byte("zz/pre"), Payload: []byte("x")}
 				if c.Version == 5 {
